@@ -26,7 +26,7 @@ RULE = (
     "integrate/average/cumint/get_metric/metric_weighted with axes passed as plain string, list and tuple; COMODO and "
     "SGRID autoparsing + operations; grid ufuncs with dummy names in signature and boundary_width; transform linear / "
     "conservative with target_dim and target_data names; padding/diff across axis-swapping face links with extra "
-    "dimensions. C12-sensitive observables (corner cells, set-ordered choices) are not part of the records. Class = "
+    "dimensions. C12-sensitive observables (set-ordered choices, corner cells of face-connected grids) are not part of the records; corner cells of a simple grid padded along two axes with different fill values are. Class = "
     "(scenario, categories of hostile names used); one verdict per compared call."
 )
 REQUIRED_REACH = ["xgcm.grid_ufunc._GridUFuncSignature.equivalent", "xgcm.grid.Grid.get_metric", "xgcm.sgrid.get_axis_positions_and_coords",
@@ -292,6 +292,18 @@ def scenario(desc, nm):
                                                              boundary_width={d0: plen}, boundary="extend"), inv)))
         out.append(("decorated", rec(lambda: as_grid_ufunc(signature=sig, boundary_width={d0: plen}, boundary="fill", fill_value=3.0)(f)(
             g, da, axis=[(nm[a0], nm[a1])]), inv)))
+        # both axes padded under the fill rule with a fill value of their own, and a kernel that reads the corner of the
+        # halo: what ends up in the corner follows from the order in which the call lists the axes, never from their names
+        from xgcm.padding import pad
+
+        sig2 = f"({d0}:center,{d1}:center)->({d0}:center,{d1}:center)"
+        fills = {nm[a0]: 2.0, nm[a1]: -5.0}
+        for tag, bw in (("ab", {d0: (1, 0), d1: (1, 0)}), ("ba", {d1: (0, 1), d0: (0, 1)})):
+            out.append(("two-axis-corner:" + tag, rec(lambda bw=bw: apply_as_grid_ufunc(
+                (lambda x: x[..., 1:, 1:] + x[..., :-1, :-1]), da, axis=[(nm[a0], nm[a1])], grid=g, signature=sig2, boundary_width=bw, boundary="fill",
+                fill_value=dict(fills)), inv)))
+        for tag, pw in (("ab", {nm[a0]: (1, 2), nm[a1]: (2, 1)}), ("ba", {nm[a1]: (1, 1), nm[a0]: (1, 1)})):
+            out.append(("pad-corners:" + tag, rec(lambda pw=pw: pad(da, g, pw, boundary="fill", fill_value=dict(fills)).transpose(*da.dims), inv)))
         p1 = [q for q in desc["pos"][a1] if q != "center"][0]
         sig1 = f"({d0}:center)->({d0}:{p1})"
         out.append(("one-axis", rec(lambda: apply_as_grid_ufunc(lambda x: x[..., 1:] + x[..., :-1], da, axis=[(nm[a1],)], grid=g,
